@@ -82,14 +82,22 @@ structure Conf where
   notifyOn   : Bool
 deriving Repr
 
-/-- `textproto.CanonicalMIMEHeaderKey` on ASCII token names: first letter and every letter
-after '-' upper case, the rest lower case. -/
+/-- `validHeaderFieldByte` of net/textproto: the token characters of RFC 7230. -/
+def isTokenByte (b : Nat) : Bool :=
+  (48 ≤ b && b ≤ 57) || (65 ≤ b && b ≤ 90) || (97 ≤ b && b ≤ 122) ||
+  b == 33 || b == 35 || b == 36 || b == 37 || b == 38 || b == 39 || b == 42 || b == 43 || b == 45 ||
+  b == 46 || b == 94 || b == 95 || b == 96 || b == 124 || b == 126
+
 def canonChars : Bool → List Char → List Char
   | _, [] => []
   | up, c :: cs =>
     (if up then c.toUpper else c.toLower) :: canonChars (c == '-') cs
 
-def canon (s : String) : String := String.ofList (canonChars true s.toList)
+/-- `textproto.CanonicalMIMEHeaderKey`: a name made of token characters only gets its first letter and every
+letter after '-' in upper case, the rest in lower case; a name that contains anything else (a space, a
+non-ASCII byte, …) is returned **unchanged**. Tied to the real function by the `strfn` correspondence stream. -/
+def canon (s : String) : String :=
+  if s.toList.all (fun c => isTokenByte c.toNat) then String.ofList (canonChars true s.toList) else s
 
 /-- The request as the handler sees it. Header names are as received by `net/http`
 (canonical form); `Header.Get` returns the first value of the canonicalised key or "". -/
